@@ -6,6 +6,8 @@ from .common import *
 from .vecdiff import *
 from .adapters import *
 
+CRATES = (UT,)
+
 META = {
     "explanation": (
         "Static decision on MIR of the Head and Tail translators (22 arms): R15.1 room before entry - a set-of-states walk over every path of every arm "
